@@ -204,6 +204,12 @@ let sk_top (t : ostring) : top =
   | _ -> failwith "top"
 let sk_outcome n = match int_of_nat n with 0 -> "Ok" | 1 -> "Err" | _ -> "Panic"
 
+(* ---- C10 ---- *)
+let show_fval (((code, s), m), e) = match int_of_nat code with
+  | 0 -> "Z " ^ b2s s | 1 -> "F " ^ b2s s ^ " " ^ dec_of_z m ^ " " ^ dec_of_z e | 2 -> "I " ^ b2s s | 3 -> "N " ^ b2s s | _ -> "Panic"
+let pad_hex n z = let h = string_of_bytes (hex_of_Z z) in
+  if Stdlib.String.length h >= n then h else Stdlib.String.make (n - Stdlib.String.length h) '0' ^ h
+
 (* ---- dispatch: kind -> inputs -> outputs ---- *)
 let eval (kind : ostring) (ins : ostring list) : ostring list =
   match kind, ins with
@@ -288,6 +294,20 @@ let eval (kind : ostring) (ins : ostring list) : ostring list =
     [match c14_final h (List.map fst init_items) with
      | None -> "Panic"
      | Some r -> "Ok " ^ Stdlib.String.concat "," (List.map2 (fun it obj -> if (it_named it && obj) || not obj then "-" else dec_of_z (it_id it)) r !objs)]
+  | "fdec", [k; bits] ->
+    let b = z_of_dec bits in
+    [match k with
+     | "H" -> show_fval (c10_dec_ieee (nat_of_int 0) b)
+     | "F" | "D" -> show_fval (c10_dec_ieee (nat_of_int 1) b)
+     | "L" -> show_fval (c10_dec_ieee (nat_of_int 2) b)
+     | "K" -> show_fval (c10_dec80 b)
+     | _ -> show_fval (c10_dec_ppc b)]
+  | "frt", [k; bits] ->
+    let b = z_of_dec bits in
+    [match k with
+     | "L" -> hx ("0xL" ^ pad_hex 32 (c10_rt_ieee (nat_of_int 2) b))
+     | "K" -> (match c10_rt80 b with Some z -> hx ("0xK" ^ pad_hex 20 z) | None -> "inexact")
+     | _ -> (let (code, z) = c10_rt_ppc b in match int_of_nat code with 0 -> "ParsePanic" | 1 -> "Panic" | _ -> hx ("0xM" ^ pad_hex 32 z))]
   | _ -> failwith ("unknown kind " ^ kind)
 
 let () =
